@@ -35,9 +35,58 @@ def status_methods(prog):
     return methods
 
 
-def mk_file(levels):
-    return Obj("File", errors=Obj("Errors", _inner=[Obj("Error", level=l) for l in levels],
-                                  _seq=[Obj("Error", level=l) for l in levels]))
+class ErrorsModel:
+    """The repository's Errors / Error / Highlight classes interpreted by the analyser's evaluator."""
+
+    def __init__(self, prog):
+        from ..facts import catalogue
+        self.prog = prog
+        self.methods = status_methods(prog)
+        self.classes = {n: prog.cls(n).node for n in ("Errors", "Error", "Highlight")}
+        self.globals = {"errors_dict": catalogue(prog)}
+
+    def evaluator(self, **kw) -> Evaluator:
+        ev = Evaluator(self.methods, **kw)
+        ev.classes = self.classes
+        ev.globals = self.globals
+        return ev
+
+    ADD_FORMS = [("inst", "Error"), ("inst", "Notice"), ("name", "Error"), ("name", "Notice"), ("name-default", "Error"),
+                 ("append-inst", "Error"), ("append-inst", "Notice"), ("text", "Error"), ("text", "Notice")]
+
+    def new_errors(self, ev):
+        return ev.instantiate("Errors", [], {})
+
+    def add(self, ev, errors, form, level):
+        hl = ev.instantiate("Highlight", [1, 1], {})
+        m_add = self.methods[("Errors", "add")]
+        if form in ("inst", "append-inst"):
+            err = ev.invoke(self.methods[("Error", "from_name")], [__import__("sa.minieval", fromlist=["ClassRef"]).ClassRef("Error"),
+                                                                   "TOO_MANY_LINES"], {"level": level, "highlights": [hl]})
+            meth = m_add if form == "inst" else self.methods.get(("Errors", "append"), m_add)
+            ev.invoke(meth, [errors, err], {})
+        elif form == "name":
+            ev.invoke(m_add, [errors, "TOO_MANY_LINES"], {"level": level, "highlights": [hl]})
+        elif form == "name-default":
+            ev.invoke(m_add, [errors, "TOO_MANY_LINES"], {"highlights": [hl]})
+        elif form == "text":
+            ev.invoke(m_add, [errors, "CUSTOM", "custom text"], {"level": level, "highlights": [hl]})
+
+    def stored_levels(self, errors):
+        inner = errors.__dict__.get("_inner")
+        if not isinstance(inner, list):
+            raise Unsupported("Errors no longer keeps its diagnostics in _inner")
+        return [e.level for e in inner]
+
+    def status(self, ev, errors):
+        return ev.expr(ast.parse("errors.status", mode="eval").body, {"errors": errors})
+
+
+def mk_file(model, ev, levels, form="inst"):
+    errors = model.new_errors(ev)
+    for l in levels:
+        model.add(ev, errors, form, l)
+    return Obj("File", errors=errors)
 
 
 FILE_KINDS = ([], ["Notice"], ["Error"], ["Notice", "Error"], ["Notice", "Notice"], ["Error", "Error"])
@@ -49,28 +98,33 @@ def check(run, prog):
     methods = status_methods(prog)
 
     # ---- R-4.1 single source of verdict ---------------------------------------
-    run.rule("R-4.1", "Errors.status is 'OK' exactly when no element has level 'Error' (evaluated by the analyser's own "
-             "interpreter over all level lists up to length 3); every formatter takes its verdict from .errors.status, "
+    run.rule("R-4.1", "class Errors interpreted by the analyser over every sequence of <= 3 add() calls in each "
+             "calling form (instance / by name / by name with default level / deprecated append / name+text): status is "
+             "'Error' exactly when a stored diagnostic has level 'Error'; every formatter takes its verdict from .errors.status, "
              "once per file, unconditionally", floor=3)
     st = prog.method("Errors", "status")
     run.require(st is not None, "anchor vanished: Errors.status")
+    model = ErrorsModel(prog)
     bad = None
     n_eval = 0
     try:
         for k in range(0, 4):
-            for levels in itertools.product(LEVELS, repeat=k):
-                ev = Evaluator(methods)
-                inner = [Obj("Error", level=l, name="X", text="t", highlights=[]) for l in levels]
-                res = ev.call_function(st.node, {"self": Obj("Errors", _inner=inner, _seq=inner)})
+            for forms in itertools.product(ErrorsModel.ADD_FORMS, repeat=k):
+                ev = model.evaluator(max_steps=100000)
+                errors = model.new_errors(ev)
+                for form, level in forms:
+                    model.add(ev, errors, form, level)
+                levels = model.stored_levels(errors)
+                res = model.status(ev, errors)
                 n_eval += 1
                 want = "Error" if "Error" in levels else "OK"
-                if res != want and bad is None:
-                    bad = (list(levels), res, want)
+                if (res != want or len(levels) != k) and bad is None:
+                    bad = ([f"{f}:{l}" for f, l in forms], levels, res, want)
     except Unsupported as e:
-        raise AnalysisError(f"Errors.status is outside the evaluable subset: {e}")
+        raise AnalysisError(f"class Errors is outside the evaluable subset: {e}")
     run.ob("R-4.1", f"{st.key}::predicate", bad is None,
-           f"Errors.status is not 'no Error-level diagnostic': levels {bad[0]} give {bad[1]!r}, expected {bad[2]!r}" if bad
-           else "status predicate", st.node, evaluations=n_eval)
+           (f"Errors.status is not 'some stored diagnostic has level Error': after add calls {bad[0]} the stored levels are "
+            f"{bad[1]} but status is {bad[2]!r} (expected {bad[3]!r})") if bad else "status predicate", st.node, evaluations=n_eval)
     fmts = prog.subclasses("_formatter")
     run.require(len(fmts) >= 2, "fewer than two formatter classes")
     for c in fmts:
@@ -153,8 +207,12 @@ def check(run, prog):
     if not unbound and not stale:
         for k in range(0, 4):
             for kinds in itertools.product(range(len(FILE_KINDS)), repeat=k):
-                files = [mk_file(FILE_KINDS[i]) for i in kinds]
-                ev = Evaluator(methods, functions=helpers, lookup=lambda nm: None if nm == files_name else lookup(nm))
+                ev = model.evaluator(functions=helpers, lookup=lambda nm: None if nm == files_name else lookup(nm),
+                                     max_steps=200000)
+                try:
+                    files = [mk_file(model, ev, FILE_KINDS[i], "inst" if (j % 2 == 0) else "name") for j, i in enumerate(kinds)]
+                except Unsupported as e:
+                    raise AnalysisError(f"class Errors is outside the evaluable subset: {e}")
                 try:
                     res = ev.expr(E, {files_name: files})
                 except (Unsupported, TypeError, AttributeError, KeyError, IndexError) as e:
